@@ -62,15 +62,24 @@ def quoteAscii (s : Bytes) : R Bytes :=
   | some b => pure ([34] ++ b ++ [34])
   | none => throw (.unmodelled "Quote of non-ASCII byte")
 
+/-! literal texts as bytes (so that the kernel can evaluate them) -/
+def nilB : Bytes := [110, 105, 108]
+def trueB : Bytes := [116, 114, 117, 101]
+def falseB : Bytes := [102, 97, 108, 115, 101]
+def nanB : Bytes := [78, 97, 78]
+def posInfB : Bytes := [43, 73, 110, 102]
+def negInfB : Bytes := [45, 73, 110, 102]
+def negZeroB : Bytes := [45, 48, 46, 48]
+
 /-- `Float.Inspect` after the C14 fix, for the part `floatStr` models (NaN, infinities, integral
 values below 2^53): digits plus `.0` -/
 def floatBytes (bits : UInt64) : R Bytes :=
   let f := f64 bits
-  if f.isNaN then pure (toBytes "NaN")
-  else if f.isInf then pure (toBytes (if f > 0 then "+Inf" else "-Inf"))
+  if f.isNaN then pure nanB
+  else if f.isInf then pure (if f > 0 then posInfB else negInfB)
   else if f == f.floor && f.abs < 9007199254740992.0 then
     let i := f.toInt64
-    if i == 0 && bits != 0 then pure (toBytes "-0.0") else pure (intBytes i ++ [46, 48])
+    if i == 0 && bits != 0 then pure negZeroB else pure (intBytes i ++ [46, 48])
   else throw (.unmodelled "FormatFloat of non-integral float")
 
 def stdFmt : Fmt := ⟨quoteAscii, floatBytes⟩
@@ -84,8 +93,8 @@ def funcInspect (f : FuncVal) : Bytes :=
 mutual
 /-- `Object.Inspect` for the values a global can hold -/
 def inspectP (fm : Fmt) : Obj → R Bytes
-  | .null => pure (toBytes "nil")
-  | .bool b => pure (toBytes (if b then "true" else "false"))
+  | .null => pure nilB
+  | .bool b => pure (if b then trueB else falseB)
   | .int v => pure (intBytes v)
   | .float b => fm.float b
   | .str s => fm.quote s
@@ -176,5 +185,16 @@ def parseDecInt (lit : Bytes) : Option Int64 :=
   match lit, digitsVal 0 lit with
   | _ :: _, some n => if n < 2 ^ 63 then some (Int64.ofNat n) else none
   | _, _ => none
+
+/-- the value the evaluator gives to the printed form of an integer: `-` is the prefix operator applied to
+the literal; the literal 9223372036854775808 alone is a float, but negated it is the smallest integer
+(`eval.isMinInt64Literal`, C14 fix) -/
+def readIntText (t : Bytes) : Option Int64 :=
+  match t with
+  | 45 :: ds =>
+    match parseDecInt ds with
+    | some v => some (-v)
+    | none => if digitsVal 0 ds == some (2 ^ 63) then some (Int64.ofInt (-9223372036854775808)) else none
+  | ds => parseDecInt ds
 
 end Grol.Save
